@@ -235,7 +235,7 @@ def spec_lines(ops):
 @prop("C02",
       rule="per country: structure-conforming BBANs (random, and with registry bank codes) -> from_bban, "
            "plus all 100 check-digit pairs around each; non-trivial = distinct (country, BBAN, pair) "
-           "; plus BBANs carrying every alphanumeric word of the source's string literals at admissible offsets, and one BBAN text assembled under every country of its length",
+           "; plus BBANs carrying every alphanumeric word of the source's string literals at admissible offsets, and one BBAN text assembled under every country of its length; accepted calls repeated after calls rejected half-way (inadmissible character at the start / middle / end)",
       note="arithmetic proved for the model; BBAN quantified in the library's compact upper-case form")
 def c02(run):
     S = Streams(run.seed * 1000 + 2)
@@ -301,6 +301,29 @@ def c02(run):
             run.violation("IBAN.from_bban after other countries were given the same BBAN text",
                           [unhx(f[1]), unhx(f[2])], a, m, "model (proved against the Spec) on the same call",
                           kind="history", history=ops2[max(0, k - 80):k + 1])
+            break
+    # rejected calls between accepted ones: a call that fails half-way (an inadmissible character after some
+    # admissible ones, at the start, at the end) must leave nothing behind that the next call sees
+    ops3 = []
+    bad_chars = ["-", ".", "/", "_", "é", "٣", "ß", "{", "\x00"]
+    for cc in r.sample(S.countries, run.scale(12, len(S.countries))):
+        good = S.bban(cc).upper()
+        for ch in r.sample(bad_chars, run.scale(3, len(bad_chars))):
+            for p in sorted({0, len(good) // 2, len(good) - 1, r.randrange(len(good))}):
+                bad = good[:p] + ch + good[p + 1:]
+                ops3.append(["iban.from_bban", hx(cc), hx(good)])
+                ops3.append(["iban.from_bban", hx(cc), hx(bad)])
+                ops3.append(["iban.from_bban", hx(cc), hx(good)])
+                ops3.append(["iban.new", hx(cc + iban_check_digits(cc, good) + good), "F", "F"])
+                ops3.append(["iban.generate", hx(cc), hx(bad[:3]), hx(bad[3:6]), hx("")])
+                ops3.append(["iban.new", hx(cc + iban_check_digits(cc, good) + good), "F", "F"])
+    reals3, model3 = run.correspond("accepted calls after rejected ones", ops3)
+    for k, (f, a, m) in enumerate(zip(ops3, reals3, model3)):
+        if a != m and k % 6 in (2, 3, 5):
+            run.violation("a call repeated after a rejected call", [readable_op(o) for o in ops3[k - k % 6:k + 1]],
+                          a, m, "model (proved against the Spec) on the same call; the first call of the "
+                          "group is the same call before the rejected one",
+                          kind="history", history=ops3[k - k % 6:k + 1])
             break
     sample = []
     for cc in S.countries:
@@ -992,7 +1015,8 @@ def c06(run):
            "algorithms['DE:xx'].validate and compute; through IBAN(validate_bban=True) for bank codes of "
            "every method present in the registry, unlisted banks and banks with unimplemented methods; "
            "verdicts compared with the independent reference of the published rules; non-trivial = distinct "
-           "(method, account) pair",
+           "(method, account) pair; bank codes whose entries name different methods are swept completely "
+           "(an account one of the named methods rejects must be rejected)",
       note="all 39 methods proved equal to the published rule for all 10^10 accounts (live_de_total: no "
            "foreign exception); int() of whole account strings is modelled for digit strings")
 def c07(run):
@@ -1066,6 +1090,25 @@ def c07(run):
                 i = "DE" + iban_check_digits("DE", b) + b
                 ops2.append(["iban.new", hx(i), "F", "T"])
                 meta2.append((first[e["bank_code"]].get("checksum_algo"), acct, i))
+    # bank codes whose entries do not all name the same method: "the method of the bank" is every method
+    # its entries name - an account that one of them rejects must be rejected (always swept completely)
+    named = {}
+    for e in de_banks:
+        named.setdefault(e["bank_code"], []).append(e.get("checksum_algo"))
+    for code, ms in sorted(named.items()):
+        if code and len(set(ms)) > 1:
+            for m in sorted({m for m in ms if m in methods}):
+                done = 0
+                for _ in range(4000):
+                    acct = "".join(r.choice(DIGITS) for _ in range(10))
+                    if natref.de(m, acct) is False:
+                        b = code + acct
+                        i = "DE" + iban_check_digits("DE", b) + b
+                        ops2.append(["iban.new", hx(i), "F", "T"])
+                        meta2.append((m, acct, i))
+                        done += 1
+                        if done == 6:
+                            break
     for _ in range(run.scale(30, 500)):   # unlisted banks
         bank = "".join(r.choice(DIGITS) for _ in range(8))
         if bank in first:
@@ -1283,7 +1326,9 @@ def rand_doc(r, depth, keys="abck"):
            "dict-vs-scalar both ways, disjoint and identical keys all occur) through merge_dicts; random v2 "
            "documents through parse_v2; random file sets (1-4 files, adversarial names around '.', '-', case and "
            "'v2' stems, dict and list files) through registry.get on a temporary directory; inputs checked "
-           "unmodified; non-trivial = distinct case with at least one common key / at least two files",
+           "unmodified; non-trivial = distinct case with at least one common key / at least two files; the live "
+           "package: bank files read with json.load compose to registry.get('bank'), and entries of every file "
+           "(first, last, sample, all entries lacking a usual key) are found again from an IBAN built around them",
       note="merge laws proved for all documents; composition of the live files proved equal to the live "
            "effective table by kernel evaluation; json.load, Path.glob and sorted() are modelled")
 def c18(run):
@@ -1382,6 +1427,63 @@ def c18(run):
             if a != want:
                 run.violation("registry.get(directory)", [{k: v for k, v in fs.items()}], a, want,
                               "files composed in file-name order", kind="config", op=f)
+    c18_live_lookups(run, S)
+
+
+def disk_bank_entries():
+    """The bank list as the property composes it, read from the files of the live package (not through
+    `registry.get`): files in file-name order, v2 files expanded; -> [(file name, entry)]"""
+    import glob
+    import json as _json
+    import schwifty as _pkg
+    out = []
+    d = os.path.join(os.path.dirname(_pkg.__file__), "bank_registry")
+    for fn in sorted(glob.glob(os.path.join(d, "*.json")), key=lambda f: os.path.basename(f)):
+        doc = _json.load(open(fn, encoding="utf-8"))
+        stem = os.path.basename(fn)[:-5]
+        if stem.endswith("v2"):
+            src, dst = doc.get("expand_from"), doc.get("expand_into")
+            for e in doc.get("entries", []):
+                base = {k: v for k, v in e.items() if k != src}
+                base.setdefault("primary", False)
+                for v in e.get(src, []):
+                    out.append((os.path.basename(fn), {**base, dst: v}))
+        elif isinstance(doc, list):
+            out += [(os.path.basename(fn), e) for e in doc]
+    return out
+
+
+def c18_live_lookups(run, S):
+    """Lookups follow the effective data: entries of every bank file (first, last, a few in between, and
+    every entry that lacks one of the usual keys) are found again from an IBAN built around them."""
+    r = S.r
+    disk = disk_bank_entries()
+    if [e for _, e in disk] != [dict(e) for e in registry_get_bank_raw()]:
+        run.violation("registry.get('bank')", ["the live package"], "differs from the files on disk composed in "
+                      "file-name order", "equal", "bank files read with json.load", kind="config")
+        return
+    first = {}
+    for e in S.banks:
+        if e["bank_code"]:
+            first.setdefault((e["country_code"], e["bank_code"]), e)
+    per_file = {}
+    for (fn, e), view in zip(disk, S.banks):
+        per_file.setdefault(fn, []).append((e, view))
+    keys = set()
+    usual = ("country_code", "bank_code", "bic", "primary", "name", "short_name")
+    for fn, items in sorted(per_file.items()):
+        pick = [items[0], items[-1]] + r.sample(items, min(len(items), run.scale(3, 200)))
+        pick += [it for it in items if any(k not in it[0] for k in usual)][: run.scale(40, 10 ** 6)]
+        for e, view in pick:
+            if view["bank_code"] and view["country_code"] in S.table:
+                keys.add((view["country_code"], view["bank_code"]))
+    run.count(len(keys), tag="live keys looked up")
+    reach_keys(run, S, sorted(keys), first, stream="lookups follow the bank files")
+
+
+def registry_get_bank_raw():
+    from realops import registry
+    return registry.get("bank")
 
 
 def jdec_keys(tok):
@@ -1444,6 +1546,62 @@ import re as _re_mod
 SPEC_ITEM_RE = _re_mod.compile(r"(\d+)!([nace])")
 
 
+def reach_keys(run, S, keys, first, stream="reachability"):
+    """Build a valid IBAN around every (country, bank code) key and read bank and BIC back."""
+    from realops import registry_lines
+    by_cc = {}
+    for k in keys:
+        by_cc.setdefault(k[0], []).append(k)
+    fill = {"n": "0", "a": "A", "c": "A", "e": " "}
+    ops, meta = [], []
+    for cc, ks in sorted(by_cc.items()):
+        spec = S.table.get(cc)
+        if not spec or "positions" not in spec:
+            for k in ks:
+                run.violation("bundled data", [k], "country without positions", "reachable bank", "reachability",
+                              kind="config")
+            continue
+        ops += registry_lines(S.banks_of(cc))
+        meta += [None] * (len(ops) - len(meta))
+        cls = [k for n, k in S.spec_items(cc) for _ in range(n)]
+        for (_, code) in ks:
+            b = [fill[k] for k in cls]
+            pos = 0
+            for comp in spec.get("bic_lookup_components", ["bank_code"]):
+                s_, e_ = spec["positions"].get(comp, [0, 0])
+                b[s_:e_] = list(code[pos:pos + e_ - s_])
+                pos += e_ - s_
+            b = "".join(b)
+            i = cc + iban_check_digits(cc, b) + b
+            ops.append(["iban.new", hx(i), "F", "F"])
+            meta.append(("valid", cc, code, i))
+            ops.append(["bban.bank", hx(cc), hx(b)])
+            meta.append(("bank", cc, code, i))
+            run.distinct.add((cc, code))
+    reals, _ = run.correspond(stream, ops)
+    for f, m, a in zip(ops, meta, reals):
+        if m is None:
+            continue
+        kind, cc, code, i = m
+        if kind == "valid":
+            if not a.startswith("ok "):
+                run.violation("IBAN built around a listed bank", [cc, code, i], a, "a valid IBAN",
+                              "reachability of every listed bank", kind="config", op=f)
+        else:
+            e = first[(cc, code)]
+            exp = "ok " + " ".join([hx(e["bank_code"]), "None" if e["bic"] is None else hx(e["bic"]),
+                                    hx(e["name"]), hx(e["short_name"])])
+            if not a.startswith(exp + " | "):
+                run.violation("iban.bank for an IBAN built around a listed bank", [cc, code, i], a, exp,
+                              "listed bank is found again from its IBAN", kind="config", op=f)
+            else:
+                want = expect_bank_line(S, S.banks_of(cc), cc, i[4:])
+                if a != want:
+                    run.violation("iban.bic for an IBAN built around a listed bank", [cc, code, i], a, want,
+                                  "the BIC the registry lists for the bank is found again from its IBAN",
+                                  kind="config", op=f)
+
+
 @prop("C17",
       rule="obligations: one per country entry and per bank-entry chunk (kernel evaluation of the whole "
            "regenerated table); dynamic: an independent audit of every country and bank entry (exhaustive), and "
@@ -1484,57 +1642,7 @@ def c17(run):
     # entries that lack an expected key are always built and read back
     keys = sorted(set(keys) | {(e.get("country_code", ""), e.get("bank_code", "")) for e, _ in S.malformed_entries
                                if e.get("bank_code") and (e.get("country_code", ""), e.get("bank_code", "")) in first})
-    by_cc = {}
-    for k in keys:
-        by_cc.setdefault(k[0], []).append(k)
-    fill = {"n": "0", "a": "A", "c": "A", "e": " "}
-    ops, meta = [], []
-    for cc, ks in sorted(by_cc.items()):
-        spec = S.table.get(cc)
-        if not spec or "positions" not in spec:
-            for k in ks:
-                run.violation("bundled data", [k], "country without positions", "reachable bank", "reachability",
-                              kind="config")
-            continue
-        ops += registry_lines(S.banks_of(cc))
-        meta += [None] * (len(ops) - len(meta))
-        cls = [k for n, k in S.spec_items(cc) for _ in range(n)]
-        for (_, code) in ks:
-            b = [fill[k] for k in cls]
-            pos = 0
-            for comp in spec.get("bic_lookup_components", ["bank_code"]):
-                s_, e_ = spec["positions"].get(comp, [0, 0])
-                b[s_:e_] = list(code[pos:pos + e_ - s_])
-                pos += e_ - s_
-            b = "".join(b)
-            i = cc + iban_check_digits(cc, b) + b
-            ops.append(["iban.new", hx(i), "F", "F"])
-            meta.append(("valid", cc, code, i))
-            ops.append(["bban.bank", hx(cc), hx(b)])
-            meta.append(("bank", cc, code, i))
-            run.distinct.add((cc, code))
-    reals, _ = run.correspond("reachability", ops)
-    for f, m, a in zip(ops, meta, reals):
-        if m is None:
-            continue
-        kind, cc, code, i = m
-        if kind == "valid":
-            if not a.startswith("ok "):
-                run.violation("IBAN built around a listed bank", [cc, code, i], a, "a valid IBAN",
-                              "reachability of every listed bank", kind="config", op=f)
-        else:
-            e = first[(cc, code)]
-            exp = "ok " + " ".join([hx(e["bank_code"]), "None" if e["bic"] is None else hx(e["bic"]),
-                                    hx(e["name"]), hx(e["short_name"])])
-            if not a.startswith(exp + " | "):
-                run.violation("iban.bank for an IBAN built around a listed bank", [cc, code, i], a, exp,
-                              "listed bank is found again from its IBAN", kind="config", op=f)
-            else:
-                want = expect_bank_line(S, S.banks_of(cc), cc, i[4:])
-                if a != want:
-                    run.violation("iban.bic for an IBAN built around a listed bank", [cc, code, i], a, want,
-                                  "the BIC the registry lists for the bank is found again from its IBAN",
-                                  kind="config", op=f)
+    reach_keys(run, S, keys, first)
 
 
 # --------------------------------------------------------------------------- C08
@@ -1656,7 +1764,9 @@ def c08(run):
       rule="for the 19 computing countries: IBANs generated from random conforming components and seeded "
            "random draws are validated nationally; the same component text is also built under several "
            "countries in varying order; for every country with positions: components are read off nationally "
-           "valid IBANs and the BBAN is rebuilt and compared outside filler positions; non-trivial = distinct IBAN",
+           "valid IBANs and the BBAN is rebuilt and compared outside filler positions; non-trivial = distinct IBAN"
+           "; other spellings of the country code (lower / mixed case, blanks) through generate and random: whatever "
+           "is built must validate nationally",
       note="compute -> validate proved per algorithm; build_validates / generate_passes_national prove the "
            "end-to-end agreement for the 19 countries and `rebuild` proves parse -> rebuild (live tables, every "
            "registry naming no method); random draws are checked dynamically")
@@ -1702,16 +1812,27 @@ def c09(run):
                         hx(comps.get("branch_code", ""))])
     for cc in computing + computing[::-1]:
         ops.append(["iban.generate", hx(cc), "-", "-", "-"])
+    # other spellings of the country code: whatever the library builds for them must validate as well
+    for cc in computing:
+        comps = r.choice(digit_pool[S.table[cc]["bban_length"]])
+        for sp in (cc.lower(), cc.title(), cc[0].lower() + cc[1], " " + cc, cc + " ", cc.lower() + "\t"):
+            ops.append(["iban.generate", hx(sp), hx(comps.get("bank_code", "")), hx(comps.get("account_code", "")),
+                        hx(comps.get("branch_code", ""))])
     reals, _ = run.correspond("generate", ops)
     nat_ops = []
     for f, a in zip(ops, reals):
         if a.startswith("ok "):
             nat_ops.append(["iban.validate", a[3:], "T"])
     # seeded random draws
-    for cc in computing:
-        for seed in range(run.scale(6, 100)):
+    for cc in computing + [c.lower() for c in computing] + [c.title() for c in computing]:
+        for seed in range(run.scale(6, 100) if cc.isupper() else 2):
             try:
                 i = str(IBAN.random(cc, random=Random(run.seed * 7919 + seed)))
+            except exceptions.InvalidCountryCode:
+                if cc.isupper():
+                    run.violation("IBAN.random", [cc, seed], "InvalidCountryCode", "an IBAN or the overflow error",
+                                  "random draw", kind="input")
+                continue
             except exceptions.GenerateRandomOverflowError:
                 continue
             except Exception as e:  # noqa: BLE001
@@ -2175,7 +2296,8 @@ def readable_op(op):
 
 @prop("C14",
       rule="pairs of calls routed to the same algorithm object (methods whose code reads the scratch cell: 02, "
-           "04, 07, 14, 16, 23, 25; an accepting and a rejecting account each) and pairs of first lookups, run in "
+           "04, 07, 14, 16, 23, 25; an accepting and a rejecting account each), pairs of first lookups, and two "
+           "lookups of the SAME (country, bank code) pair for the pairs with the most entries, run in "
            "two real threads under a deterministic line-level scheduler (sys.settrace hand-off inside schwifty/); "
            "all single-preemption schedules up to a budget, each in a forked child; a schedule whose results "
            "differ from running alone is the replay; non-trivial = distinct (pair, schedule) "
@@ -2225,6 +2347,23 @@ def c14(run):
     if run.tier != "thorough":
         nd = 2 * len(directed)
         pairs = pairs[:nd] + pairs[nd:: 2] + pairs[-2:]
+    # two lookups of the SAME pair at once, for the pairs with the most entries (the list of entries of a
+    # pair is shared by all callers)
+    multi = {}
+    for e in S.banks:
+        if e["bank_code"] and e["country_code"] in S.table:
+            multi.setdefault((e["country_code"], e["bank_code"]), []).append(e)
+    big = sorted((k for k, v in multi.items() if len(v) > 1), key=lambda k: (-len(multi[k]), k))
+    for k in big[:1] + [k for k in big[1:] if k[0] != big[0][0]][:1]:
+        pairs.append([["bic.candidates", hx(k[0]), hx(k[1])], ["bic.from_bank_code", hx(k[0]), hx(k[1])]])
+        fillb = list(S.bban(k[0]).upper())
+        spec = S.table[k[0]]
+        pos = 0
+        for comp in spec.get("bic_lookup_components", ["bank_code"]):
+            s_, e_ = spec.get("positions", {}).get(comp, [0, 0])
+            fillb[s_:e_] = list(k[1][pos:pos + e_ - s_])
+            pos += e_ - s_
+        pairs.append([["bban.bank", hx(k[0]), hx("".join(fillb))], ["bic.candidates", hx(k[0]), hx(k[1])]])
     budget = run.scale(70, 2000)
     total = 0
     for ops in pairs:
